@@ -32,6 +32,16 @@ func raceLogPath() string {
 
 var frameRe = regexp.MustCompile(`^\s+(\S+)\(\)\s*$`)
 
+// isModuleFn: the function belongs to a module (import path with a dot in its first element), not to the standard library.
+func isModuleFn(fn string) bool {
+	first := fn
+	if k := strings.Index(first, "/"); k >= 0 {
+		first = first[:k]
+		return strings.Contains(first, ".")
+	}
+	return false
+}
+
 // CollectRaces parses the reports appended to the race log since the last call.
 func CollectRaces() []RaceReport {
 	p := raceLogPath()
@@ -51,6 +61,7 @@ func CollectRaces() []RaceReport {
 		}
 		lines := strings.Split(rep, "\n")
 		var accs [][2]string // (func, file:line)
+		var owners []string  // per access: the nearest frame that is not standard-library code (who made the access)
 		for i := 0; i < len(lines); i++ {
 			l := lines[i]
 			if strings.HasPrefix(l, "Read at") || strings.HasPrefix(l, "Write at") || strings.HasPrefix(l, "Previous read at") || strings.HasPrefix(l, "Previous write at") ||
@@ -70,6 +81,19 @@ func CollectRaces() []RaceReport {
 						loc = loc[:k]
 					}
 					accs = append(accs, [2]string{fn, loc})
+					// an access inside the standard library (bufio, bytes, ...) belongs to whoever called into it
+					owner := fn
+					for k := j; k+1 < len(lines) && strings.TrimSpace(lines[k]) != ""; k += 2 {
+						mm := frameRe.FindStringSubmatch(lines[k])
+						if mm == nil {
+							break
+						}
+						if isModuleFn(mm[1]) {
+							owner = mm[1]
+							break
+						}
+					}
+					owners = append(owners, owner)
 					break
 				}
 			}
@@ -92,8 +116,24 @@ func CollectRaces() []RaceReport {
 			return fn
 		}
 		a, b := accs[0], accs[1]
-		r := RaceReport{A: shortFn(a[0]) + " " + filepath.Base(a[1]), B: shortFn(b[0]) + " " + filepath.Base(b[1]), RepoA: isRepo(a[0]), RepoB: isRepo(b[0]), Raw: rep}
-		fa, fb := shortFn(a[0]), shortFn(b[0])
+		r := RaceReport{A: shortFn(a[0]) + " " + filepath.Base(a[1]), B: shortFn(b[0]) + " " + filepath.Base(b[1]), RepoA: isRepo(owners[0]), RepoB: isRepo(owners[1]), Raw: rep}
+		name := func(i int) string {
+			if owners[i] != accs[i][0] && isRepo(owners[i]) {
+				return shortFn(owners[i]) + ">" + shortFn(accs[i][0]) // repository function > standard-library function making the access
+			}
+			return shortFn(accs[i][0])
+		}
+		r.A, r.B = name(0)+" "+filepath.Base(a[1]), name(1)+" "+filepath.Base(b[1])
+		if !isModuleFn(a[0]) || !isModuleFn(b[0]) {
+			// An access made inside the standard library counts for whoever called into it. Such a report is only
+			// attributed to the repository if BOTH sides were made on behalf of repository code: objects that the
+			// harness creates (error values, readers) and hands to the system cross tasks without the happens-before
+			// edge a real program has (the scheduler's hand-offs are hidden from the detector on purpose), so a
+			// harness-side access inside errors/fmt/bytes against a repository-side one is an artefact.
+			both := r.RepoA && r.RepoB
+			r.RepoA, r.RepoB = both, both
+		}
+		fa, fb := name(0), name(1)
 		if fb < fa {
 			fa, fb = fb, fa
 		}
